@@ -71,7 +71,7 @@ func VerifC10_IncomingRestart() {
 	f.val.Result.DataLimit = st.DataLimit
 	f.val.Result.RequiresFinalization = st.RequiresFinalization
 	isPull := st.Initiator == st.Recipient
-	req := verifArbitraryRequest("req")
+	req := verifScalarRequest("req")
 	zz.Assume(req.MessageType == uint64(types.RestartMessage))
 	req.TransferId = uint64(chid.ID)
 	base := st.BaseCid
